@@ -237,9 +237,15 @@ def decompress(encoding: Encoding, data: bytes, *, max_output_size: int | None =
 
     ``IDENTITY`` returns *data* unchanged — ``Content-Encoding: identity``
     is a valid request header meaning "no transform applied", so it must
-    pass through rather than 415.
+    pass through rather than 415.  The cap still applies: the "decoded" body
+    is the input itself, so an input longer than *max_output_size* is refused
+    with the same limit error as the compressing codecs.
     """
     if encoding is Encoding.IDENTITY:
+        if max_output_size is not None and len(data) > max_output_size:
+            raise DecompressionLimitExceeded(
+                f"Identity-encoded body is {len(data)} bytes, which exceeds max_output_size={max_output_size}"
+            )
         return data
     if encoding is Encoding.ZSTD:
         return _decompress_body_zstd(data, max_output_size=max_output_size)
